@@ -160,20 +160,37 @@ func init() {
 					continue
 				}
 				lines, closure := false, false
-				eachInstr(fn, func(in ssa.Instruction) {
-					if site, ok := in.(ssa.CallInstruction); ok {
-						nm := calleeName(site.Common())
-						if strings.HasSuffix(nm, ".Lines") {
-							lines = true
+				// the function itself and the module functions it hands the block to (as the block or as an ast.Node)
+				scan := []*ssa.Function{fn}
+				seenFn := map[*ssa.Function]bool{fn: true}
+				for i := 0; i < len(scan) && i < 8; i++ {
+					eachInstr(scan[i], func(in ssa.Instruction) {
+						if site, ok := in.(ssa.CallInstruction); ok {
+							nm := calleeName(site.Common())
+							if strings.HasSuffix(nm, ".Lines") {
+								lines = true
+							}
+							if strings.HasSuffix(nm, ".HasClosure") {
+								closure = true
+							}
+							if callee := site.Common().StaticCallee(); callee != nil && inModule(callee) && len(callee.Blocks) > 0 && !seenFn[callee] && scan[i] == fn {
+								for _, a := range site.Common().Args {
+									v := a
+									if mi, ok := v.(*ssa.MakeInterface); ok {
+										v = mi.X
+									}
+									if v == ssa.Value(blk) {
+										seenFn[callee] = true
+										scan = append(scan, callee)
+									}
+								}
+							}
 						}
-						if strings.HasSuffix(nm, ".HasClosure") {
+						if fa, ok := in.(*ssa.FieldAddr); ok && fieldName(fa.X.Type(), fa.Field) == "ClosureLine" {
 							closure = true
 						}
-					}
-					if fa, ok := in.(*ssa.FieldAddr); ok && fieldName(fa.X.Type(), fa.Field) == "ClosureLine" {
-						closure = true
-					}
-				})
+					})
+				}
 				if !lines {
 					continue
 				}
